@@ -2,6 +2,7 @@
 """Regenerates the `fixed` list of known_findings.json from /repo's "fix:" commits."""
 import json, subprocess
 PROP = {
+"serialization schema requires TypedDict keys":"C07",
 "as_names with an aliaser cannot deserialize":"C05",
 "errors of an inherited field validator ignore":"C11",
 "cache.set_size disables cache invalidation":"C09",
